@@ -53,6 +53,7 @@ import (
 	"runtime"
 	"slices"
 	"strings"
+	"time"
 
 	"golang.org/x/tools/go/ssa"
 
@@ -106,6 +107,9 @@ type fnInfo struct {
 
 // State shared between all interpreted goroutines.
 type interpreter struct {
+	osModelV           *osModel // file-layer double (osfiles.go), one per path
+	osModelPath        *pathState
+	blockTick          uint64                 // basic blocks executed (wall-clock check every 1024)
 	osArgs             []value                // the value of os.Args
 	prog               *ssa.Program           // the SSA program
 	globals            map[*ssa.Global]*value // addresses of global variables (immutable)
@@ -681,6 +685,10 @@ func runFrame(fr *frame) {
 		i.ps.steps += len(nonPhis)
 		if i.sh.trackFuncs {
 			i.funcSteps[fr.fn] += len(nonPhis)
+		}
+		i.blockTick++
+		if i.blockTick&0x3ff == 0 && !i.sh.deadline.IsZero() && time.Now().After(i.sh.deadline) {
+			panic(pathAbort{OutBound, fmt.Sprintf("wall-clock budget exceeded inside a path (in %s)", fr.fn)})
 		}
 		if i.ps.steps > i.sh.MaxSteps {
 			panic(pathAbort{OutBound, fmt.Sprintf("instruction budget %d exceeded in %s", i.sh.MaxSteps, fr.fn)})
